@@ -46,6 +46,7 @@ func findLeadingZeroChild(seed []byte, z int, limit int) (uint32, bool) {
 }
 
 func runC04(c *Ctx) {
+	c.Conc = true // stateless calls are also replayed from several goroutines at once
 	r := c.Rng
 	// seeds of every length: legal ones give a master key, others the documented error
 	for n := 0; n <= 70; n++ {
@@ -143,6 +144,7 @@ func b58WithChecksum(p []byte) string {
 }
 
 func runC05(c *Ctx) {
+	c.Conc = true // stateless calls are also replayed from several goroutines at once
 	r := c.Rng
 	secN := secN.Bytes()
 	for k := 0; k < c.Pick(3, 8); k++ {
@@ -241,6 +243,7 @@ func runC05(c *Ctx) {
 // ---------------------------------------------------------------------------- C06
 
 func runC06(c *Ctx) {
+	c.Conc = true // stateless calls are also replayed from several goroutines at once
 	r := c.Rng
 	c.Prelude = []Event{hdCfg()}
 	var scalars [][]byte
